@@ -30,6 +30,26 @@ class VC:
         self.info = info or {}
 
 
+QUANTIFIERS_IN_USE = [False]      # set by the only producers of quantified formulas (pyvc.folds.forall / exists)
+
+
+def _has_quantifier(e):
+    if not QUANTIFIERS_IN_USE[0]:
+        return False
+    seen = set()
+    todo = [e]
+    while todo:
+        x = todo.pop()
+        if z3.is_quantifier(x):
+            return True
+        k = x.get_id()
+        if k in seen:
+            continue
+        seen.add(k)
+        todo.extend(x.children())
+    return False
+
+
 class PathState:
     FEAS_TIMEOUT_MS = 2000
 
@@ -50,6 +70,7 @@ class PathState:
         self.steps = 0
         self.decided = {}        # id of a decided condition -> its truth on this path
         self.keep = []           # keeps the decided conditions alive (ids are only unique while alive)
+        self.lazy_ids = set()
         self.undo_log = []       # callbacks undoing cached derived state when a tentative evaluation is rolled back
 
     # -- fresh symbols -----------------------------------------------------------------
@@ -76,9 +97,21 @@ class PathState:
                 raise Infeasible()
             return
         self.pc.append(cond)
-        if not lazy:
-            self.solver.add(cond)
+        if lazy:
+            self.lazy_ids.add(cond.get_id())
+            self.keep.append(cond)
+        else:
+            self.solver_add(cond)
         self.learn_domains(cond)
+
+    def solver_add(self, cond):
+        """feed the feasibility solver.  Lazy facts and quantified conjuncts stay out (they make it slow and
+        `unknown`): feasibility is then over-approximated, which only adds paths; every VC carries the whole fact"""
+        if cond.get_id() in self.lazy_ids:
+            return
+        for cj in (cond.children() if z3.is_and(cond) else [cond]):
+            if not _has_quantifier(cj):
+                self.solver.add(cj)
 
     def learn_domains(self, cond):
         """x == k1 or x == k2 ... : remember the finite value set of x"""
@@ -119,7 +152,13 @@ class PathState:
             return self.solver.check()
         self.solver.push()
         try:
-            self.solver.add(extra)
+            if not isinstance(extra, bool) and _has_quantifier(extra):
+                # only the quantifier-free conjuncts take part (over-approximates satisfiability)
+                for cj in (extra.children() if z3.is_and(extra) else []):
+                    if not _has_quantifier(cj):
+                        self.solver.add(cj)
+            else:
+                self.solver.add(extra)
             return self.solver.check()
         finally:
             self.solver.pop()
@@ -164,7 +203,7 @@ class PathState:
         self.idx += 1
         c = cond if d else z3.Not(cond)
         self.pc.append(c)
-        self.solver.add(c)
+        self.solver_add(c)
         self.decided[cid] = d
         self.keep.append(cond)
         if d:
